@@ -235,6 +235,15 @@ Theorem C12_int32_Builder : forall ops a b,
 Proof. exact bfold32_eq. Qed.
 Print Assumptions C12_int32_Builder.
 
+(** ... which holds whenever the final Offset and every position set so far fit in an int32 *)
+Theorem C12_int32_Builder_bound : forall ops a,
+  forallb bop_dom ops = true ->
+  aoff (fold_left astep ops a) <= MaxI32 ->
+  (forall q, In q (abits (fold_left astep ops a)) -> q + 1 <= MaxI32) ->
+  hist_bounded a ops.
+Proof. exact hist_bounded_final. Qed.
+Print Assumptions C12_int32_Builder_bound.
+
 (** * widening: the mask tables of bitmap/mask.go (Get/SafeGet read [Bit]) *)
 (** every read of Mask/RMask (any integer index): the closed forms 2^i - 1 / 2^64 - 2^i inside 0..64,
     a panic outside *)
